@@ -745,15 +745,29 @@ func c10Scenarios(tier string) []scenario {
 				if hasRC && !k.Flate {
 					continue
 				}
+				groups := 4
+				if k.Flate {
+					// executions with a compressor are slow (a 1.2 MB flate.Writer each)
+					groups = 12
+					hasWM := false
+					for _, o := range pr {
+						hasWM = hasWM || o == "WM"
+					}
+					if tier != "thorough" && hasWM && (hasRC || len(pr) > 2) {
+						continue
+					}
+				}
 				prm := c10Params{K: k, Prog: pr, Fam: fam}
-				scs = append(scs, scenario{Name: prm.name(), Cfg: cfg, Setup: c10Setup(prm), Group: fmt.Sprintf("%s/%s/%d", fam, k.String(), i%4)})
+				scs = append(scs, scenario{Name: prm.name(), Cfg: cfg, Setup: c10Setup(prm), Group: fmt.Sprintf("%s/%s/%d", fam, k.String(), i%groups)})
 			}
 		}
 	}
 	plain := []connCfg{{Client: false}, {Client: true}}
-	flate := []connCfg{{Client: false, Flate: true}, {Client: true, Flate: true}}
+	// threshold 1: the written messages really are compressed (the compressor, its sink
+	// and its context live longer than one message under context takeover)
+	flate := []connCfg{{Client: false, Flate: true, Thr: 1}, {Client: true, Flate: true, Thr: 1}}
 	build("rw", []string{"R1", "R3", "RE", "R0", "W1", "WM"}, []string{"RN", "RP", "RK", "WB", "WL"}, plain)
-	build("rw", []string{"RC", "W1"}, []string{"RN"}, flate)
+	build("rw", []string{"RC", "W1", "WM"}, []string{"RN"}, flate)
 	build("pw", []string{"P1", "W1"}, []string{"PN", "WL"}, plain)
 	for _, k := range plain {
 		for _, b := range []string{"P", "W", "R"} {
